@@ -949,21 +949,21 @@ Lemma builtin_rhythm_inert : tbl_inert rhythm_rows = true.
 Proof. vm_compute. reflexivity. Qed.
 
 (* from the initial lexer state of model/Compile.v: every source without '$' *)
-Theorem lex_terminates_initial : forall src ln,
-  forallb nodollar src = true -> good (lex (mkLex 96 [] init_vars rhythm_rows) src ln).
+Theorem lex_terminates_initial : forall (ja : bool) src ln,
+  forallb nodollar src = true -> good (lex (mkLex 96 [] init_vars rhythm_rows ja) src ln).
 Proof.
-  intros src ln H. apply lex_terminates. unfold lex_safe. cbn [lx_rhythm]. rewrite builtin_rhythm_inert, H. reflexivity.
+  intros ja src ln H. apply lex_terminates. unfold lex_safe. cbn [lx_rhythm]. rewrite builtin_rhythm_inert, H. reflexivity.
 Qed.
 
 (* ------------------------------------------------------------------------------------------ *)
 (* 11. without the premise the statement is false: a rhythm macro that calls Rhythm on itself   *)
 (* ------------------------------------------------------------------------------------------ *)
-Definition ls0 : lexstate := mkLex 96 [] init_vars rhythm_rows.
+Definition ls0 : lexstate := mkLex 96 [] init_vars rhythm_rows false.
 Definition rhythm_recursion_src : list Z := zs "$a{Rhythm{a}} Rhythm{a}".
 Lemma lex_rhythm_recursion : lex ls0 rhythm_recursion_src 0 = OutOfFuel.
 Proof. vm_compute. reflexivity. Qed.
 (* and no fuel is enough: the recursion is real (the implementation overflows its stack on this source) *)
-Definition ls1 : lexstate := mkLex 96 [] init_vars ((97, zs "Rhythm{a}") :: rhythm_rows).
+Definition ls1 : lexstate := mkLex 96 [] init_vars ((97, zs "Rhythm{a}") :: rhythm_rows) false.
 Lemma rhythm_self_step sublex :
   sublex ls1 (zs "Rhythm{a}") 0 = OutOfFuel ->
   LOOPG sublex (S (length (zs "Rhythm{a}"))) ls1 (zs "Rhythm{a}") 0 false [TLineNo 0] = OutOfFuel.
